@@ -123,7 +123,7 @@ class Monitor:
         self.surfaced: set = set()
         self.evaluator_yields: list = []
         self.n_independent = 0
-        self.fresh_every = 1 if run.prop == "C11" else 7
+        self.fresh_every = 3 if run.prop == "C11" else 9
 
     # ---- exception sink -------------------------------------------------------
     def on_exception(self, e, note):
